@@ -11,7 +11,7 @@ from pv import shim
 from pv import tlc
 
 TESTS_WITH_REF = ('Frequency', 'BlockFrequency', 'Runs', 'LongestRuns', 'Serial', 'ApproximateEntropy', 'RandomWalk', 'NonOverlappingTemplateMatching',
-                  'LinearComplexityScatter', 'LinearComplexity', 'BinaryMatrixRank', 'Spectral', 'OverlappingTemplateMatching', 'Universal')
+                  'LinearComplexityScatter', 'LinearComplexity', 'BinaryMatrixRank', 'Spectral', 'OverlappingTemplateMatching', 'Universal', 'LargeBinaryMatrixRank')
 
 
 def bits_of(v, n):
@@ -122,6 +122,17 @@ def _gf2_rank(rows):
   return rank
 
 
+def _rank_sf(k):
+  """P(rank deficiency >= k) of a large random square binary matrix: sum_{j >= k} 2^(-j^2) prod_{i > j} (1 - 2^-i) / prod_{i <= j} (1 - 2^-i)."""
+  mpm = _mp()
+  inf = mpm.nprod(lambda i: 1 - mpm.mpf(2) ** (-i), [1, mpm.inf])
+  tot = mpm.mpf(0)
+  for j in range(k, k + 40):
+    head = mpm.nprod(lambda i: 1 - mpm.mpf(2) ** (-i), [1, j]) if j else mpm.mpf(1)
+    tot += mpm.mpf(2) ** (-j * j) * (inf / head) / head
+  return tot if k else mpm.mpf(1)
+
+
 _OPI = {}
 
 
@@ -220,6 +231,16 @@ def ref_pvalues(test, b, par=None):
       return None
     chi = sum((v[i] - N * pi[i]) ** 2 / (N * pi[i]) for i in range(k_ + 1))
     return {'result': igamc(k_ / 2, float(chi) / 2)}
+  if test == 'LargeBinaryMatrixRank':
+    # one matrix per size 64, 128, ..: p = P(rank deficiency >= observed) for a random square matrix (asymptotic distribution)
+    if n > 2 ** 21:
+      return None
+    out, size = {}, 64
+    while size * size <= n:
+      rows = [val(b[i * size:(i + 1) * size]) for i in range(size)]
+      out['%d * %d' % (size, size)] = float(_rank_sf(size - _gf2_rank(rows)))
+      size *= 2
+    return out
   if test == 'Spectral':
     # SP 800-22 2.6: T = sqrt(ln(1/0.05) n), N0 = 0.95 n/2, N1 = #{|DFT_j| < T, j < n/2}, d = (N1 - N0) / sqrt(n 0.95 0.05 / 4)
     import numpy
@@ -493,7 +514,7 @@ def stat_record(ns, sid, test, b, par=0, with_ref=True):
         for k in ref:
           alts = ref[k] if isinstance(ref[k], list) else [ref[k]]
           # the square 32 x 32 rank distribution is embedded to eight printed digits: relative 2e-5 on the p-value
-          rel = 2e-5 if test == 'BinaryMatrixRank' else 1e-6
+          rel = 2e-5 if test in ('BinaryMatrixRank', 'LargeBinaryMatrixRank') else 1e-6   # embedded constants have 6..8 printed digits
           if k in pv and not any(abs(pv[k] - x) <= max(1e-9, rel * abs(x)) for x in alts):
             ok = False
     rng_ok = (not nan) and all(-1e-9 <= x <= 1 + 1e-9 for x in pv.values())
@@ -706,6 +727,11 @@ def table_records():
       want.append(1 - sum(want))
       ok = len(got) == k_ + 1 and all(abs(g - w) <= 1.0001e-8 for g, w in zip(got, want))
       recs.append(rec('rank-%dx%d-k%d' % (r_, c_, k_), ok, {'code': got, 'exact': want}))
+    # the survival function embedded in the extended suite, to its six printed digits
+    from paranoid_crypto.lib.randomness_tests import extended_nist_suite as ens
+    tab = [float(x) for x in ens.ASYMPTOTIC_RANK_SF]
+    want = [float(_rank_sf(k)) for k in range(len(tab))]
+    recs.append(rec('asymptotic-rank-sf', all(abs(g - w) <= 1.5e-5 * w for g, w in zip(tab, want)), {'code': tab[:8], 'exact': want[:8]}))
     got = [float(x) for x in ns.RankDistribution(6, 8, 2, allow_approximation=False)]
     want = [float(rank_prob(6, 8, 6 - j)) for j in range(2)]
     want.append(1 - sum(want))
